@@ -142,8 +142,9 @@ class Ctx:
 
     def bad(self, kind, case, detail, sub=""):
         s = site(self.cfg)
-        self.acc.violation(f"{s}/{kind}/{cfg_sig(self.cfg)}{sub}", dict(case, cfg=self.cfg), detail,
-                           group=f"{s}/{kind}/{cfg_grp(self.cfg)}")
+        # exceptions are grouped by type+message only (one shared code path, e.g. the re-ordering, serves all encodings)
+        group = f"{s}/{kind}" if kind.startswith("exception/") else f"{s}/{kind}/{cfg_grp(self.cfg)}"
+        self.acc.violation(f"{s}/{kind}/{cfg_sig(self.cfg)}{sub}", dict(case, cfg=self.cfg), detail, group=group)
 
     def enc(self, op, case, cache_key=None):
         """Encoded operator or None (after recording a violation) when the real code raises on an in-domain input."""
@@ -501,9 +502,12 @@ def run_spec(cx, label, H, sample=False):
         acc.nt(("spec", cfg_sig(cfg), label))
     acc.out(("spec", tuple(np.round(ev_ref, 6))))
     if sample:
-        acc.sample({"check": "spectrum", "cfg": cfg_sig(cfg), "operator": F.op_to_str(H), "image": P.to_str(E)[:400],
-                    "eigenvalues_reference": [round(float(x), 9) for x in ev_ref][:16],
-                    "eigenvalues_image": [round(float(x), 9) for x in ev_q][:16]}, cap=2)
+        def mult(ev):
+            vals = [round(float(x), 7) + 0.0 for x in ev]
+            return ", ".join(f"{v:g} (x{vals.count(v)})" for v in sorted(set(vals)))
+        acc.sample({"check": "spectrum on the represented space", "cfg": cfg_sig(cfg), "operator": F.op_to_str(H),
+                    "image": P.to_str(E)[:500], "dim_represented": len(idx), "eigenvalues_reference": mult(ev_ref),
+                    "eigenvalues_image": mult(ev_q)}, cap=1)
     if not d <= tol:
         sub = "/constant-only" if set(H) <= {()} else ""
         cx.bad("spectrum-mismatch", case, {"input": F.op_to_str(H)[:300], "image": P.to_str(E)[:300], "distance": d,
@@ -590,7 +594,8 @@ def work_items(cfg, part, tier, seed):
                 gens = [x for x in gens if x[0] in keep]
         else:
             gens = small_generators(n, dom)
-        return [("spec", lab, H) for lab, H in hamiltonians(gens, (-1.0, g))]
+        kmax = 2 if (tier == "quick" and n >= 6 and dom in ("scbk", "sz")) else 3
+        return [("spec", lab, H) for lab, H in hamiltonians(gens, (-1.0, g), kmax)]
     if part == "lin":
         gens = hcb_generators(n // 2) if dom == "hcb" else hermitian_generators(n, "quick", dom)
         if dom == "sz" and n >= 6:
@@ -608,10 +613,21 @@ def parts_of(cfg):
     return ["spec", "ham", "lin"]
 
 
+SAMPLE_CFGS = {("JW", True, None, None, None), ("JKMN", False, None, None, None), ("scBK", False, 1, 2, None),
+               ("scBK", True, 0, 1, None), ("HCB", False, None, None, None), ("COMB", False, 1, 1, None),
+               ("COMB", False, 2, 1, None)}
 TARGET = {"car": 600, "hom": 500, "spec": 250, "ham": 300, "lin": 500}
 
 
+def _preimport():
+    """Import the code under test in the parent so that forked workers do not each pay for it."""
+    from tangelo.toolboxes.operators import FermionOperator  # noqa: F401
+    from tangelo.toolboxes.qubit_mappings import combinatorial  # noqa: F401
+    from tangelo.toolboxes.qubit_mappings.mapping_transform import fermion_to_qubit_mapping  # noqa: F401
+
+
 def shards(tier, seed):
+    _preimport()
     sh = []
     for cfg in configs(tier):
         for part in parts_of(cfg):
@@ -648,11 +664,12 @@ def run_shard(sh):
     mine = items[sh["chunk"]::sh["nchunks"]]
     for j, item in enumerate(mine):
         acc.states += 1
-        want_sample = sh["chunk"] == 0 and j in (3, 11) and cfg["n"] in (4, 6) and sh["part"] in ("spec", "ham")
+        want_sample = (sh["chunk"] == 0 and j == len(mine) - 3 and sh["part"] == "ham" and cfg["n"] == 4
+                       and (cfg["mapping"], cfg["utd"], cfg.get("na"), cfg.get("nb"), cfg.get("int_ne")) in SAMPLE_CFGS)
         run_item(cx, item, g, sample=want_sample)
     acc.count(f"cases[{sh['part']}]", len(mine))
     acc.count(f"cases[{cfg['mapping']}]", len(mine))
-    if sh["part"] == "hom" and sh["chunk"] == 0 and cfg["n"] == 4 and mine:
+    if sh["part"] == "hom" and sh["chunk"] == 0 and cfg["n"] == 4 and cfg["mapping"] == "BK" and cfg["utd"] and mine:
         it = [x for x in mine if x[0] == "hom" and len(x[1]) == 2 and len(x[2]) == 1][:1]
         for x in it:
             EA, EB = cx.cache.get(("mono", tuple(x[1]))), cx.cache.get(("mono", tuple(x[2])))
@@ -695,7 +712,8 @@ def bounds(tier, seed):
         "HCB": {"n_spatial": [2, 3], "generators(3)": len(hcb_generators(3))},
         "combinatorial": {"n_modes": [2, 3], "sectors": "every (n_alpha, n_beta), tuple form; int form when equal",
                           "hermitian_generators(3)": len(hermitian_generators(6, tier, "sz"))},
-        "hamiltonians": "all sums of <=3 distinct generators of the small generator set with coefficients in {-1,g}",
+        "hamiltonians": "all sums of <=3 distinct generators of the small generator set with coefficients in {-1,g} "
+                        "(quick tier: <=2 generators for scBK and combinatorial on 6 spin-orbitals)",
         "configurations": len(cf), "shards": len(shards(tier, seed)),
         "tolerances": {"pauli": TOL, "eigenvalues": TOL, "combinatorial_rel": TOL_COMB},
     }
